@@ -121,7 +121,7 @@ PROPS = {
         "assumptions": ["node paths and keys are ASCII in the generated cases"],
     },
     "C08": {
-        "lean_props": ["ZarrsModel.Props.C08"],
+        "lean_props": ["ZarrsModel.Props.C08", "ZarrsModel.Props.C08Fs"],
         "harness": "c08",
         "rule": "random operation sequences (4..30 ops; thorough: up to 200) over a hierarchy-shaped universe of 12 keys / 9 prefixes with values of 0..12 bytes and "
                 "in- and out-of-bounds ranges of all three forms, on 11 stores: memory, filesystem (with and without direct I/O, on disk under /verif/work), "
@@ -163,7 +163,7 @@ PROPS = {
         "assumptions": ["the store is unchanged between the reads of one case"],
     },
     "C01": {
-        "lean_props": ["ZarrsModel.Props.C01"],
+        "lean_props": ["ZarrsModel.Props.C01", "ZarrsModel.Props.C01Chain"],
         "harness": "c01",
         "rule": "random configuration: 12 data types (fixed and variable length; NaN/-0.0/non-empty-string fills), rank 0..3, regular (ragged edge) and rectangular grids, 4 key encodings, "
                 "root/nested paths, chains over every registered lossless codec (transpose, squeeze, bytes both endians, packbits, pcodec, vlen, vlen_v2, vlen-utf8/bytes, sharding nested to depth 2 "
@@ -209,7 +209,7 @@ PROPS = {
         "timeout": 3000,
     },
     "C17": {
-        "lean_props": ["ZarrsModel.Props.C17"],
+        "lean_props": ["ZarrsModel.Props.C17", "ZarrsModel.Props.C17Shard"],
         "harness": "c17",
         "rule": "fixed-size configurations (all chains incl. nested sharding) at concurrency targets {1,2,4,16}: after a random history, the whole array, all chunks, cached and sharded-extension "
                 "reads and random multi-chunk regions are read with hook H4 recording every view write (allocation, offset, length) and every publish site; for EVERY published buffer the driver "
@@ -237,7 +237,7 @@ PROPS = {
         "timeout": 3000,
     },
     "C03": {
-        "lean_props": ["ZarrsModel.Props.C03", "ZarrsModel.Props.C03PackBits", "ZarrsModel.Props.C03Lossy", "ZarrsModel.Props.C03Vlen"],
+        "lean_props": ["ZarrsModel.Props.C03", "ZarrsModel.Props.C03PackBits", "ZarrsModel.Props.C03Lossy", "ZarrsModel.Props.C03Vlen", "ZarrsModel.Props.C03Chain"],
         "harness": "c03",
         "rule": "random codec chains built from metadata JSON (transpose with random order, squeeze, bytes both endians, packbits, pcodec, vlen/vlen_v2/vlen-utf8/vlen-bytes, crc32c, fletcher32, shuffle, "
                 "gzip 0-9, zstd 1-19 +-checksum, blosc x6 compressors, bz2 1-9, zlib 0-9, gdeflate 0-12) x 12 data types x shapes of rank 1-3 with size-1 dims (every 40th case a 500..9000-element chunk to "
